@@ -435,6 +435,13 @@ class SigmaDetection(ParentChainMixin):
                             if k not in merged_dict:  # key doesn't exists in merged dict: just add
                                 merged_dict[k] = v
                             else:  # key collision, now things get complicated...
+                                if "neq" in k.split("|")[1:]:
+                                    # The negation applies to all values of an item: the merged
+                                    # item would be not (a and b) instead of not a and not b.
+                                    raise sigma_exceptions.SigmaValueError(
+                                        f"Can't merge negated items '{k}' into one item.",
+                                        source=self.source,
+                                    )
                                 if "|all" in k:  # key contains 'all' modifier
                                     mk = merged_dict[k]
                                     if not isinstance(
